@@ -89,11 +89,9 @@ var c14Zones = []*time.Location{time.UTC, time.FixedZone("UTC+9", 9*3600), time.
 // largest period instead of the largest warm-up draw their average columns
 // (and the annotation, which inherits the extra action) one row longer than
 // the date axis, which they skip by the period.
-func c14Key(stratName string, extra int) string {
+func c14Key(ns namedStrat, extra int) string {
 	if extra == 1 {
-		// the strategy itself, or an Inverse decorator over it (which passes the
-		// n+1 actions through to its annotation and outcome columns)
-		return plusOneKey(stratName)
+		return ns.PlusOne
 	}
 	return ""
 }
@@ -121,7 +119,7 @@ func c14Check(cc *run.Case, ns namedStrat, class string, n int) bool {
 	if rows == 0 || rows > n {
 		key := ""
 		if rows == 0 && n == ns.Warm+1 {
-			key = c14Key(ns.Name, 1) // the date axis is skipped by the period, one more than the warm-up
+			key = c14Key(ns, 1) // the date axis is skipped by the period, one more than the warm-up
 		}
 		fail(key, fmt.Sprintf("the date axis has %d rows for %d snapshots (warm-up %d)", rows, n, ns.Warm))
 		return key != ""
@@ -140,7 +138,7 @@ func c14Check(cc *run.Case, ns namedStrat, class string, n int) bool {
 			if d.Roles[i] == "annotation" {
 				name = "(annotation)"
 			}
-			key := c14Key(ns.Name, len(d.Cols[i])-rows)
+			key := c14Key(ns, len(d.Cols[i])-rows)
 			fail(key, fmt.Sprintf("column %d %q yields %d values for %d date rows (a short column silently prints zeros, a long one is left with unconsumed values)", i, name, len(d.Cols[i]), rows))
 			ok = false
 			if key == "" {
